@@ -1,7 +1,11 @@
 (* C06 — inactive and suspended queues run nothing; resume restarts them.
    THIS FILE: statements about Gen_dqstate (regenerated from src/queue.c, src/inline_internal.h on every run) and about
    Model/Suspend.v, the linearised count update of dispatch_suspend / dispatch_resume (`suspend_word`, `resume_word`),
-   for histories issued by one thread on a queue nobody drains.  The protocol theorems over all interleavings of
+   for histories issued by one thread on a queue nobody drains.  Tie to the library: lib/props/c06.py runs the same
+   histories on a real queue and compares, after every call, dq_state and dq_side_suspend_cnt with Suspend.run_ops
+   (which contains `suspend`) and, for histories on an activated idle queue, the suspend bits and the side counter
+   with Suspend_proofs.run_words (= suspend_word / resume_word, what C06_resume_counts and C06_nesting_any_depth are
+   about); under concurrency the same counting is C06_slane_count_exact.  The protocol theorems over all interleavings of
    suspend / resume / activate with submitters and drainers (exact counting, nothing starts while suspended, resume
    restarts, inactive lanes) are in Properties_C06_slane.v. *)
 From Coq Require Import ZArith Bool List.
